@@ -593,3 +593,88 @@ def config_words(ctx, plss=(), tract=(), rule='TBL'):
                       detail_bad=f"{name!r} is missing from Config.{tname}: a `{name}` given by config string / Config object "
                                  f"never reaches the {'description' if 'PLSS' in tname else 'tracts'}",
                       key=f"{rule}|Config.{tname}|{name}")
+
+
+def match_record_roles(ctx, rule='PAIR'):
+    """
+    The finders of the description parser hand their matches on as records
+    (kind, value, start, end).  Field roles are read off the producers (the
+    element built from `.start(...)` is the start offset, from `.end(...)`
+    the end offset); every consumer that unpacks such a record or indexes it
+    with a constant must bind a name that says `start` / `end` to the field
+    of that role.  Empty baseline on the pinned tree.
+    """
+    roles = None
+    for spec in ('TwpRgeFinder.findall_matching_twprge', 'SecFinder.findall_matching_sec'):
+        fi = ctx.repo.func(spec)
+        for t in ast.walk(fi.node):
+            if isinstance(t, ast.Tuple) and len(t.elts) == 4 and isinstance(t.ctx, ast.Load):
+                r = []
+                for e in t.elts:
+                    if isinstance(e, ast.Call) and isinstance(e.func, ast.Attribute) and e.func.attr in ('start', 'end'):
+                        r.append(e.func.attr)
+                    elif isinstance(e, ast.Constant) and isinstance(e.value, str):
+                        r.append('kind')
+                    else:
+                        r.append('val')
+                if 'start' in r and 'end' in r:
+                    if roles is not None and roles != r:
+                        ctx.violation(rule, 'both finders build their match records in the same field order',
+                                      f"{roles} vs {r}", key=f"{rule}|match-record|producers")
+                    roles = r
+    construct = 'consumers of (kind, value, start, end) match records read start / end from the right field'
+    if roles is None:
+        ctx.undecided(rule, construct, 'match records are not 4-tuples built from .start()/.end() any more')
+        return
+    n = 0
+
+    def role_of_name(nm):
+        toks = nm.lower().split('_')
+        if 'start' in toks:
+            return 'start'
+        if 'end' in toks:
+            return 'end'
+        return None
+    for fi in ctx.repo.funcs.values():
+        if not fi.module.name.endswith('plssdesc.plss_parse'):
+            continue
+        for st in walk_local(fi.node):
+            pairs = []          # (target tuple, source expr)
+            if isinstance(st, ast.Assign) and len(st.targets) == 1 and isinstance(st.targets[0], ast.Tuple):
+                pairs.append((st.targets[0], st.value))
+            if isinstance(st, ast.For):
+                tg = st.target
+                if isinstance(tg, ast.Tuple) and len(tg.elts) == 2 and isinstance(tg.elts[1], ast.Tuple):
+                    tg = tg.elts[1]         # for i, (kind, val, start, end) in enumerate(matches)
+                if isinstance(tg, ast.Tuple):
+                    pairs.append((tg, st.iter))
+            for tg, src in pairs:
+                if len(tg.elts) != 4 or 'match' not in norm(src).lower():
+                    continue
+                for idx, e in enumerate(tg.elts):
+                    if isinstance(e, ast.Name):
+                        want = role_of_name(e.id)
+                        if want is None:
+                            continue
+                        n += 1
+                        ctx.check(roles[idx] == want, rule, f"{fi.qualname}: `{e.id}` is bound to the {want} field of the match record",
+                                  f"field {idx}",
+                                  f"`{norm(tg)} = {norm(src)[:40]}` binds `{e.id}` to field {idx}, which is the record's "
+                                  f"{roles[idx]}: blocks are cut at the wrong offset of the neighbouring match",
+                                  key=f"{rule}|{fi.qualname}|{e.id}|{roles[idx]}", where=loc(fi, st))
+            # constant index into a record:  x = matches[i + 1][2]
+            if isinstance(st, ast.Assign) and len(st.targets) == 1 and isinstance(st.targets[0], ast.Name) \
+                    and isinstance(st.value, ast.Subscript) and isinstance(st.value.slice, ast.Constant) \
+                    and isinstance(st.value.slice.value, int) and isinstance(st.value.value, ast.Subscript) \
+                    and 'match' in norm(st.value.value.value).lower():
+                want = role_of_name(st.targets[0].id)
+                idx = st.value.slice.value
+                if want is not None and -4 <= idx < 4:
+                    n += 1
+                    ctx.check(roles[idx] == want, rule, f"{fi.qualname}: `{st.targets[0].id}` is read from the {want} field of the match record",
+                              f"field {idx}",
+                              f"`{norm(st)}` reads field {idx} of the record, which is its {roles[idx]}, into `{st.targets[0].id}`",
+                              key=f"{rule}|{fi.qualname}|{st.targets[0].id}|{roles[idx]}", where=loc(fi, st))
+    if n == 0:
+        ctx.undecided(rule, construct, 'no consumer unpacks the records by position')
+    return n
